@@ -107,6 +107,28 @@ def drive_systematic(n, w):
         mids[u0] = idx
     if w.tobytes() != w_in.tobytes():
         bad.append(("input-mutated", "weights modified in place", None))
+    # the same weights handed over in other container forms (read-only array, strided view, list, tuple): same comb
+    nforms = 0
+    if not bad and mids:
+        keys = list(mids)
+        wide = np.zeros(3 * len(w))
+        wide[1::3] = w
+        ro = w.copy()
+        ro.setflags(write=False)
+        forms = [("read-only array", ro), ("strided view", wide[1::3]), ("list", [float(v) for v in w]), ("tuple", tuple(float(v) for v in w))]
+        for fi, (fname, wf) in enumerate(forms):
+            u0 = keys[(fi * 7 + len(w)) % len(keys)]
+            with Tap(cap=10) as tap:
+                tap.serve("random", [u0])
+                try:
+                    idx = np.asarray(systematic_resample(n, wf))
+                except Exception as e:
+                    bad.append(("weights-container-form", f"systematic_resample(n={n}) with the weights as a {fname} raised {type(e).__name__}: {e}", dict(u0=u0)))
+                    continue
+            nforms += 1
+            if idx.shape != np.shape(mids[u0]) or not np.array_equal(idx, mids[u0]):
+                bad.append(("weights-container-form", f"n={n} u0={u0!r}: weights as a {fname} give another index vector than the same weights as a plain array", dict(u0=u0)))
+    drive_systematic.forms = getattr(drive_systematic, "forms", 0) + nforms
     if not bad and len(comb_breakpoints(n, w)) <= 300:
         for a, b in zip(cells[:-1], cells[1:]):
             mid = 0.5 * (a + b)
@@ -343,10 +365,12 @@ def _batch(seed, start, count, nmax):
         rng = ck.rng("case", i)
         n, w, kind, delta = gen_weights(rng, nmax)
         desc = dict(n=n, m=len(w), kind=kind, delta=delta)
+        f0 = getattr(drive_systematic, "forms", 0)
         try:
             bad, noff, ncell = drive_systematic(n, w)
         except Exception:
             bad, noff, ncell = [("exception", fmt_exc(), None)], 0, 0
+        desc["forms"] = getattr(drive_systematic, "forms", 0) - f0
         bad2 = []
         try:
             b3, nseeded = drive_seeded(rng, n, w)
@@ -506,6 +530,7 @@ def run():
             ck.event("comb partition cells integrated", ncell)
             ck.event("Resampler.run on synthetic pool", 2)
             ck.event("seeded systematic_resample calls checked to be one comb", desc.get("seeded_calls", 0))
+            ck.event("calls with the weights as read-only array / strided view / list / tuple compared with the plain-array call", desc.get("forms", 0))
             noffs += noff
             for key, what, wit in bad + bad2:
                 kk = key
